@@ -63,6 +63,7 @@ def step (s : VSt) (t0 : List String) : VSt × String :=
       | some (f, none) => (s, showFound f)
       | none => (s, "reject")
     | none => (s, "bad-op")
+  | ["nomemo"] => (s, "ok")
   | ["cfresh"] => ({ s with ccache := [] }, "ok")
   | _ =>
     let (m', out) := Mixin.Driver.Membership.step s.m t
